@@ -226,7 +226,7 @@ def handle (args : List String) : String :=
     let rbS := cond rb "1" "0"
     s!"{hex text} wf={wfS} rb={rbS}"
   | ["vallist"] => ",".intercalate (Rules.modelled.map (fun p => toString p.1))
-  | ["fldlist"] => ",".intercalate (Fields.registry.map (·.1))
+  | ["fldlist"] => ",".intercalate Fields.modelledNames
   | ["fld", name, i] => match unhex i with
     | some input => (match Fields.run name input with
       | some (.ok (ser, j)) => s!"ok {hex ser} {String.ofList j.render}"
